@@ -134,22 +134,21 @@ Fixpoint monitor (has_key : bool) (rs : ref_state) (h : list (okind * list ev * 
 Definition ack_matches (chunk resp : bytes) : bool :=
   match U_ack Stream resp with Ok (a, _) => bytes_eqb a chunk && negb (bytes_eqb chunk []) | _ => false end.
 
+Definition accepted_bytes (e : list ev) : bytes :=
+  flat_map (fun x => match x with EvWrite _ _ a _ => a | _ => [] end) e.
+
+(* however many Write calls the message takes: the bytes accepted by the connection are a
+   prefix of the encoding; success only if all of it was accepted (and the matching ack
+   came back when acks are required); an unencodable message puts nothing on the wire *)
 Definition send_ok (enc : option bytes) (ack : bool) (chunk resp : bytes) (e : list ev) (r : ret) : bool :=
-  let writes := filter (fun x => match x with EvWrite _ _ _ _ => true | _ => false end) e in
+  let acc := accepted_bytes e in
   match enc with
-  | None => match writes, r with [], RErr => true | _, _ => false end     (* unencodable: error, nothing on the wire *)
+  | None => match acc, r with [], RErr => true | _, _ => false end
   | Some b =>
-      match writes with
-      | [] => match r with RErr => true | _ => false end
-      | [EvWrite _ o a _] =>
-          bytes_eqb o b                                            (* the whole encoding is offered in one piece *)
-          && bytes_eqb a (firstn (length a) b)                     (* accepted bytes are a prefix of it *)
-          && match r with
-             | ROk => bytes_eqb a b && (negb ack || ack_matches chunk resp)
-             | RErr => true
-             | _ => false
-             end
-          && (bytes_eqb a b || match r with RErr => true | _ => false end)   (* a short write is an error *)
-      | _ => false
-      end
+      bytes_eqb acc (firstn (length acc) b)
+      && match r with
+         | ROk => bytes_eqb acc b && (negb ack || ack_matches chunk resp)
+         | RErr => true
+         | _ => false
+         end
   end.
